@@ -535,3 +535,4 @@ MANIFEST = {
             "an unknown primitive is an analysis error.",
     "technique": "pipeline extraction + symbolic evaluation with inverse-function rewrites + sign/monotonicity table (AST)",
 }
+MANIFEST["text"] += ' Also: integer data is converted to floating point before the first arithmetic step and nothing is written before the working copy exists; log1p/expm1 are primitives of the symbolic evaluator; every CustomNormalization built field-by-field from a resolved configuration receives field K under keyword K (R6).'
